@@ -3,6 +3,7 @@ use crate::common::*;
 use std::io::Write;
 
 mod c01;
+pub mod c03;
 pub mod c07;
 pub mod c04;
 pub mod c05;
@@ -16,6 +17,7 @@ pub fn generate(suite: &str, tier: &str, seed: u64) -> Vec<String> {
     let thorough = tier == "thorough";
     match suite {
         "c01" => c01::generate(&mut rng, thorough),
+        "c03" => c03::generate(&mut rng, thorough),
         "c07" => c07::generate(&mut rng, thorough),
         "c08" => c08::generate(&mut rng, thorough),
         "c09" => c09::generate_c09(&mut rng, thorough),
@@ -49,6 +51,9 @@ pub fn eval_more(t: &[&str]) -> String {
         return s;
     }
     if let Some(s) = c10::eval(t) {
+        return s;
+    }
+    if let Some(s) = c03::eval(t) {
         return s;
     }
     format!("?bad-op {}", t[0])
